@@ -22,7 +22,7 @@ MIN_WALL = 240.0
 TOL = 1e-12
 
 RULE = (
-    "one evaluation = one simulated sampler run (assemble, call or pedigree, or 4% `mchap assemble` end to end; 1-3 chains, different start states, hot / flat posteriors, row-order perturbation) whose "
+    "one evaluation = one simulated sampler run (assemble, call or pedigree, or 5% `mchap assemble` / `call` / `call-pedigree` end to end; 1-3 chains, different start states, hot / flat posteriors, row-order perturbation) whose "
     "trace summaries are compared, for every burn-in length, with the same functionals computed from the simulator's own event log; "
     "distinct_nontrivial = distinct (workload, ploidy, chains, burn-in, empirical distribution) tuples in which the retained log held at least two distinct genotypes"
 )
@@ -33,7 +33,7 @@ OPTIONAL_PROBES = {"quick": ("cli_null_alleles",), "thorough": ()}
 COMPONENTS = {
     "real": ["mchap.assemble.classes.{GenotypeMultiTrace,PosteriorGenotypeDistribution,GenotypeSupportDistribution}", "mchap.calling.classes.{GenotypeAllelesMultiTrace,PosteriorGenotypeAllelesDistribution}",
              "mchap.pedigree.classes.PedigreeAllelesMultiTrace", "mchap.mset", "mchap.calling.utils.posterior_as_array", "the three samplers producing the traces (interpreted)",
-             "cli workload: mchap.application.assemble.program end to end (GT / GPM / SPM of the printed record vs the trace its sampler returned)"],
+             "cli workload: mchap.application.{assemble,call,call_exact,call_pedigree}.program end to end (GT / GPM / SPM of the printed record vs the trace its sampler returned)"],
     "stub": ["numpy.random.* and random_choice (tape)"],
 }
 ASSUMPTIONS = [
@@ -47,11 +47,20 @@ def prepare(tier):
 
 
 def gen_config(rng, tier, index=0):
-    if rng.random() < 0.04:
-        cfg = wl_cli.gen_assemble_config(rng, tier)
+    if rng.random() < 0.05:
+        which = rng.choice(["assemble", "assemble", "call-pedigree", "call"])
+        if which == "assemble":
+            cfg = wl_cli.gen_assemble_config(rng, tier)
+            cfg["mcmc_steps"] = rng.choice([8, 12, 20])
+            cfg["mcmc_burn"] = rng.choice([0, 2, 5])
+        elif which == "call-pedigree":
+            cfg = wl_cli.gen_pedigree_config(rng, tier)
+            cfg["mcmc_steps"] = rng.choice([6, 10, 14])
+            cfg["mcmc_burn"] = rng.choice([0, 2, 4])
+        else:
+            cfg = wl_cli.gen_call_config(rng, tier)
         cfg["workload"] = "cli"
-        cfg["mcmc_steps"] = rng.choice([8, 12, 20])
-        cfg["mcmc_burn"] = rng.choice([0, 2, 5])
+        cfg["cli_program"] = which
         return cfg
     w = rng.choice(["assemble", "assemble", "walk", "call", "call", "pedigree", "awalk"])
     if w == "awalk":
@@ -192,6 +201,12 @@ def check_cli(ctx):
     """`mchap assemble` end to end: the GT / GPM / SPM it prints for every sample are the functionals of the trace its own
     sampler returned, after removing exactly --mcmc-burn steps, with haplotypes spelled as sequences over the locus' SNVs."""
     cfg = ctx.config
+    if cfg.get("cli_program") == "call-pedigree":
+        # every individual's printed GT / GPM vs its own retained trace (mixed ploidy, masked / filtered alleles, unsequenced members)
+        return wl_cli.run_pedigree_cli(ctx, report=True)
+    if cfg.get("cli_program") == "call":
+        # mchap call / call-exact: printed GT / GPM vs retained trace / enumeration (also run under C02)
+        return wl_cli.run_call_cli(ctx)
     burn = cfg["mcmc_burn"]
     fits = []
     ds, recs, parsed = wl_cli.run_assemble_cli(ctx, fits.append)
